@@ -32,11 +32,11 @@ NON_SETTERS = {"__init__", "check_all_set", "get_global_distribution_waste", "ge
 def run(index, rep):
     setters = analyse_setters(index, rep)
     disp = dispatch(index, rep, setters)
-    doc(index, rep, disp)
-    effect(index, rep, setters, disp)
-    nomut(index, rep)
-    override(index, rep)
-    keys(index, rep, setters, disp)
+    rep.guard(doc, index, rep, disp)
+    rep.guard(effect, index, rep, setters, disp)
+    rep.guard(nomut, index, rep)
+    rep.guard(override, index, rep)
+    rep.guard(keys, index, rep, setters, disp)
 
 
 # ------------------------------------------------------------------------------------------ key collection
